@@ -122,11 +122,47 @@ def all_cases(tier):
     return itertools.chain(*its)
 
 
+def nested_cases():
+    """call sites inside DAGs called several times inside the DAG: each copy runs exactly when ITS flag says so"""
+    from . import c10
+    for name, body, rspec, subs in c10.inner_flag_programs():
+        yield dict(kind="nested", prog={"name": "main", "params": [["x", "<nodefault>"], ["y", 4]], "body": body, "ret": rspec, "subs": subs})
+
+
+def run_nested(acc, c):
+    from ..prog import run_program
+    run_program(acc, {"prog": c["prog"], "kind": "nested"}, c["prog"], [(0,), (3,), (0, 0), (3, 0)], ["mc1", "mc3"], (False, True), explore_all=False)
+    acc.mark_nontrivial(("nested", repr(c["prog"]["body"])[:300]))
+    acc.mark_nontrivial(("nested2", repr(c["prog"]["ret"])[:300]))
+
+
 def run_shard(tier, k, n, acc):
-    for c in shard_iter(all_cases(tier), k, n, acc):
-        run_case(acc, c, MONITORS, nontrivial)
+    import itertools
+    for c in shard_iter(itertools.chain(all_cases(tier), nested_cases()), k, n, acc):
+        if c.get("kind") == "nested":
+            run_nested(acc, c)
+        else:
+            run_case(acc, c, MONITORS, nontrivial)
 
 
 def replay(v):
-    res, viols = replay_case(v["case"], MONITORS, v["prefix"])
+    c = v["case"]
+    if c.get("kind") == "nested":
+        from .. import harness as H
+        from .. import ir
+        from ..acc import Acc
+        from ..prog import build, compare
+        a = Acc(ID, 0, 1, 600)
+        d, ns, src = build(c["prog"], c["config"], c["is_async"])
+        args = tuple(c["args"])
+        if c["is_async"]:
+            async def op():
+                return await d(*args)
+        else:
+            def op():
+                return d(*args)
+        res = H.run_controlled(op, prefix=tuple(v["prefix"]), is_async=c["is_async"])
+        compare(a, c, c["prog"], args, res, ir.ref_eval(c["prog"], args), src)
+        return a.violations, res.trace
+    res, viols = replay_case(c, MONITORS, v["prefix"])
     return viols, res.trace
